@@ -127,6 +127,26 @@ def long_listing_probe(run):
         run.failure("scan/LONG/-", f"[call, call] on calls at records 8191..8194 of a long listing: {hits}, expected {want}", {"kind": "scan_long", "planted": [8191, 8192, 8193, 8194], "n": n})
 
 
+def long_match_probe(run, key="scan/LONGMATCH/-"):
+    """ONE occurrence that is itself long (a 300-instruction sled matched by a {250,300} repetition) and straddles a
+    power-of-two record border: first-match and all-matches must report the same, whole, occurrence (concrete validation)."""
+    n = 2 * 8192 + 700
+    rule = {"pattern": [{"nop": {"times": {"min": 250, "max": 300}}}]}
+    regex_text = jasmapi.compile_rule(rule)
+    for starts in ([3900], [8100, 16300], [4000, 12200]):
+        L = [(format(0x400000 + i, "x"), "mov", ["%rax", "%rbx"]) for i in range(n)]
+        for p in starts:
+            for k in range(300):
+                L[p + k] = (L[p + k][0], "nop", [])
+        want = [jasmapi.encode_stream(L[p:p + 300]) for p in starts]
+        _, hits, _ = jasmapi.run_consumer(regex_text, L, all_matches=True, only_addr=False)
+        found1, first, _ = jasmapi.run_consumer(regex_text, L, all_matches=False, only_addr=False)
+        _, addrs, _ = jasmapi.run_consumer(regex_text, L, all_matches=True, only_addr=True)
+        run.count("traces_validated_against_impl")
+        if hits != want or first != want[:1] or not found1 or addrs != [format(0x400000 + p, "x") for p in starts]:
+            run.failure(key, f"300-instruction sleds at records {starts} of a {n}-instruction listing, rule nop{{250,300}}: all-matches gives {len(hits)} hit(s) of {[h.count('|') for h in hits]} records, first-match {[h.count('|') for h in first]} (found={found1}), addresses {addrs}; expected one whole sled per start", {"kind": "scan_long", "planted": starts, "n": n})
+
+
 def main():
     run = Run("C11", "model_checking", "RX+CH")
     # AEM at offset 0 is what makes "the first reported match is the leftmost one" a statement about the very first
@@ -142,6 +162,7 @@ def main():
     tpls += T.gamma11(tier(), seed())
     lemmas.run_templates(run, tpls)
     scan_validation(run, T.gamma11(tier(), seed()))
+    long_match_probe(run)
     long_listing_probe(run)
     hs = [h for h in c12.harnesses(tier()) if "/modes/" in h.name]
     for h in hs:
